@@ -55,6 +55,10 @@ def stream_oracle(mido, data, msgs):
 
 
 def hexs(data):
+    data = list(data)
+    if len(data) > 40:
+        return (' '.join('%02X' % b for b in data[:16]) + f' ...({len(data)} bytes)... '
+                + ' '.join('%02X' % b for b in data[-8:]))
     return ' '.join('%02X' % b for b in data)
 
 
